@@ -4,7 +4,13 @@ lean/Properties/Cxx.lean) of the theorems whose build + axiom audit is the
 proof obligation of the property; and the evidence level.
 """
 REGISTRY = {
-    "C01": [], "C02": [], "C03": [], "C04": [], "C05": [], "C06": [], "C07": [], "C08": [], "C09": [],
+    "C01": [], "C02": [], "C03": [], "C04": [], "C05": [],
+    "C06": ["allot_sum", "allot_leftover_lt", "allot_length", "allot_share_formula", "allot_share_bounds",
+            "makeAllotment_no_remaining", "makeAllotment_with_remaining", "fillRemaining_sum", "fillRemaining_nonneg",
+            "fillRemaining_no_remaining_sum"],
+    "C07": ["reconcile_flow_eq_pairing", "reconcile_never_credits_kept", "reconcile_positive", "reconcile_names",
+            "reconcile_merges_adjacent", "reconcile_debits_le_pulled"],
+    "C08": [], "C09": [],
     "C10": [], "C11": [], "C12": [], "C13": [], "C14": [], "C15": [], "C16": [], "C17": [], "C18": [],
     "C19": [], "C20": [],
 }
